@@ -70,7 +70,7 @@ class Scratch:
     """A scratch directory under /dev/shm, removed on exit (and by the pool initialiser's atexit)."""
 
     def __init__(self, tag):
-        self.path = tempfile.mkdtemp(prefix=f"gwf-mc-{tag}-", dir=SCRATCH_ROOT)
+        self.path = tempfile.mkdtemp(prefix=f"gwf-mc-{tag}-p{os.getpid()}-", dir=SCRATCH_ROOT)
 
     def cleanup(self):
         shutil.rmtree(self.path, ignore_errors=True)
@@ -244,6 +244,20 @@ def _run_batch(args):
 
 
 # ------------------------------------------------------------------------------------------------
+
+
+def sweep_stale_scratch():
+    """Remove scratch directories left behind by checks that were killed (their owner pid is in the name and is dead)."""
+    import re
+
+    try:
+        names = os.listdir(SCRATCH_ROOT)
+    except OSError:
+        return
+    for n in names:
+        m = re.match(r"gwf-(?:mc|mut|seed)-.*?-p(\d+)-", n)
+        if n.startswith(("gwf-mc-", "gwf-mut-", "gwf-seed-")) and m and not os.path.exists(f"/proc/{m.group(1)}"):
+            shutil.rmtree(os.path.join(SCRATCH_ROOT, n), ignore_errors=True)
 
 
 class Ctx:
@@ -464,6 +478,7 @@ def main(argv=None):
         print("not reproduced on this tree")
         return 0
 
+    sweep_stale_scratch()
     ctx = Ctx(args.id, mod.LEVEL, args.tier, seed)
     shutil.rmtree(os.path.join(VERIF, "replays", args.id), ignore_errors=True)
     try:
